@@ -28,7 +28,7 @@ type c09Case struct {
 }
 
 var c09Alphabet = []string{"mgrTick", "candTick", "onFull", "onLight", "off", "delKey", "restartMgr", "zkDown", "zkUp",
-	"promoteH2", "twoMasters", "stopReplH3", "writableH3", "fileTo2", "fileForced", "fileStartedForced", "h1Dies", "adv5"}
+	"promoteH2", "twoMasters", "stopReplH3", "writableH3", "fileTo2", "fileForced", "fileStartedForced", "h1Dies", "adv5", "operatorSemiSyncOn"}
 
 func c09Run(r *vt.Run, c c09Case) (canon string) {
 	r.Eval()
@@ -65,16 +65,22 @@ func c09Run(r *vt.Run, c c09Case) (canon string) {
 			}
 			return &m
 		}
+		var tickMastersAtStart []string
+		inTickOf := ""
+		// leaveRefused: a leave was asked for, but this iteration began with no or several alive masters:
+		// the leave cannot succeed, "the mode is kept" - and with it the freeze
+		leaveRefused := func() bool {
+			m := maint()
+			return m != nil && !m.IsLightMode() && m.MySyncPaused && m.ShouldLeave && inTickOf != "" && len(tickMastersAtStart) != 1
+		}
 		frozen := func() bool {
 			m := maint()
-			return m != nil && !m.IsLightMode() && m.MySyncPaused && !m.ShouldLeave
+			return m != nil && !m.IsLightMode() && m.MySyncPaused && !m.ShouldLeave || leaveRefused()
 		}
 		lightOn := func() bool {
 			m := maint()
 			return m != nil && m.IsLightMode() && m.MySyncPaused && !m.ShouldLeave
 		}
-		var tickMastersAtStart []string
-		inTickOf := ""
 		// paused[host]: the instance on host has itself seen the current maintenance (it wrote its
 		// marker file); an instance that was cut off from the coordination service before it ever read
 		// the key cannot know about it
@@ -88,6 +94,9 @@ func c09Run(r *vt.Run, c c09Case) (canon string) {
 					who := "/by-an-instance-that-had-paused"
 					if p := w.Procs[ap.Call.Proc]; p != nil && !pausedHost(p.Host) {
 						who = "/by-an-instance-that-never-saw-the-key"
+					}
+					if leaveRefused() {
+						who += "/while-a-leave-cannot-succeed"
 					}
 					violate("1-full-maintenance-freezes-mysql"+who, fmt.Sprintf("%s changed %s with %q while full maintenance is acknowledged", ap.Call.Proc, ap.Call.Target, ap.Call.SQL))
 				}
@@ -213,6 +222,11 @@ func c09Run(r *vt.Run, c c09Case) (canon string) {
 				if s2.Up && frozen() {
 					s2.IORunning, s2.SQLRunning, s2.HasSource, s2.Source = false, false, false, ""
 					s2.ReadOnly, s2.SuperRO = false, false
+				}
+			case "operatorSemiSyncOn":
+				// the operator switches the master's semi-sync back on by hand while mysync is paused
+				if m := maint(); m != nil && !m.IsLightMode() && m.MySyncPaused && w.Servers["h1"].Up {
+					w.Servers["h1"].SSMaster = true
 				}
 			case "detachC1":
 				// the operator detaches the cascade replica (STOP REPLICA; RESET REPLICA ALL): a second alive master
@@ -351,6 +365,12 @@ func checkC09(r *vt.Run) {
 			return runner(append(append([]string(nil), prefix2...), hist...))
 		})
 	}
+	// from "a leave was asked for and cannot succeed" (two alive masters): the mode is kept
+	vBFS(r, "leave-refused|", c09Alphabet, depth-1, enabled, func(hist []string) string {
+		c := c09Case{DisableSS: true, Hist: append([]string{"onFull", "mgrTick", "candTick", "twoMasters", "off", "mgrTick"}, hist...)}
+		r.Crumb(c)
+		return "leave-refused|" + c09Run(r, c)
+	})
 	// with a registered cascade replica (smaller alphabet): what counts as "exactly one alive master"
 	cascAlpha := []string{"mgrTick", "candTick", "off", "detachC1", "twoMasters", "delKey", "adv5"}
 	dc := 4
@@ -362,5 +382,5 @@ func checkC09(r *vt.Run) {
 		r.Crumb(c)
 		return "cascade|" + c09Run(r, c)
 	})
-	r.Bound("initial_states", "converged; full maintenance acknowledged by manager and candidate; light maintenance acknowledged; acknowledged full maintenance with a cascade replica")
+	r.Bound("initial_states", "converged; full maintenance acknowledged by manager and candidate; light maintenance acknowledged; acknowledged full maintenance with a leave that cannot succeed; acknowledged full maintenance with a cascade replica")
 }
